@@ -38,6 +38,15 @@ def learn(rs, X, k):
         kw = dict(alpha=float(rs.choice([0.01, 0.1, 1.0])), min_n_samples=int(rs.choice([1, 5, 10, 40])), min_n_features=int(rs.choice([1, 2])),
                   min_mean_entropy=float(rs.choice([0.0, 0.01, 0.3])))
         c = BinaryCNet(scope=list(range(X.shape[1])))
+        if (k // 3) % 3 == 1:
+            # history: the same object was fitted before, on other data (few rows: not split at all / many rows: split): it must
+            # afterwards be the network of the LAST fit
+            X0 = (rs.rand(int(rs.choice([3, 6, 200])), X.shape[1]) < 0.5).astype(np.float32)
+            try:
+                c.fit(X0, **dict(kw, min_n_samples=int(rs.choice([1, 50]))))
+                learn.history = dict(first_fit_data=X0.astype(int).tolist(), first_fit_min_n_samples=None)
+            except Exception:
+                c = BinaryCNet(scope=list(range(X.shape[1])))
         c.fit(X, **kw)
         return 'fit', kw, c
     if which == 1:
@@ -99,6 +108,7 @@ def one_case(ctx, k):
     X, fam = gen_data(rs, k)
     nr, nv = X.shape
     rep = dict(kind='c18', k=k, seed=ctx.seed)
+    learn.history = None
     try:
         which, kw, c = learn(rs, X, k)
     except Exception as ex:
@@ -109,7 +119,9 @@ def one_case(ctx, k):
     ctx.count('learner:' + which)
     ctx.count('root-split' if c.children else 'no-split-at-all')
     ctx.count(f'or-depth={or_depth(c)}')
-    rep.update(learner=which, args=kw, data=X.astype(int).tolist())
+    rep.update(learner=which, args=kw, data=X.astype(int).tolist(), history=learn.history)
+    if learn.history:
+        ctx.count('fitted-twice-on-one-object')
     rows = np.array(list(itertools.product([0, 1], repeat=nv)), dtype=np.float32)
     try:
         ll = np.asarray(c.log_likelihood(rows), dtype=np.float64).reshape(-1)
@@ -184,6 +196,15 @@ def replay(rep):
         from harness.common import replay_demo
         return replay_demo(rep['replay'])
     r = rep['replay']
+    if r.get('history'):
+        # regenerate the whole case (both fits on one object) from its seed and run it through the same oracle, without the model
+        from harness.common import Ctx
+        ctx = Ctx('C18', 'quick', r['seed'])
+        ctx.driver_ok = False
+        one_case(ctx, r['k'])
+        for v in ctx.violations:
+            print('  ', v['what'][:300])
+        return not ctx.violations
     X = np.array(r['data'], dtype=np.float32)
     kw = r['args']
     if r['learner'] == 'fit':
